@@ -571,6 +571,10 @@ class MetaDispatchable(abc.ABCMeta):
             if len(packet) != remainder and remainder >= 0:
                 raise PGPError("{:s} did not consume exactly its declared length".format(ncls.__name__))
 
+            # what will be written can differ in size from what was read (non-minimal inner length encodings are
+            # normalised on output, for instance), and the header has to describe what is written
+            obj.update_hlen()
+
         else:
             obj = _makeobj(cls)
 
